@@ -130,7 +130,8 @@ func zzScopes(tag string, max int) []string {
 	n := vIntRange(tag+"_n", 0, max)
 	var out []string
 	for i := 0; i < n; i++ {
-		out = append(out, "s"+vStringLen(tag, 1))
+		// names of different lengths, so that one name can be a proper part of another
+		out = append(out, "s"+vStringLen(tag, 1+vChoice(tag+"_len", 2)))
 	}
 	return out
 }
